@@ -109,11 +109,11 @@ type callSite struct {
 
 type LockFacts struct {
 	P        *Prog
-	CondLock map[string]string                 // cond field -> lock id
-	Before   map[ssa.Instruction]LockState     // local lock state before each instruction
-	ExitHeld map[*ssa.Function][]LockState     // local state at each return
-	MayHeld  map[*ssa.Function]LockState       // union of entry contexts
-	MustHeld map[*ssa.Function]LockState       // intersection of entry contexts
+	CondLock map[string]string                   // cond field -> lock id
+	Before   map[ssa.Instruction]LockState       // local lock state before each instruction
+	ExitHeld map[*ssa.Function][]LockState       // local state at each return
+	MayHeld  map[*ssa.Function]LockState         // union of entry contexts
+	MustHeld map[*ssa.Function]LockState         // intersection of entry contexts
 	MayWhy   map[*ssa.Function]map[string]string // lock -> "caller @pos" explaining why it may be held
 	Sites    []callSite
 	External map[*ssa.Function]bool // may be entered from outside the module with no lock held
